@@ -12,7 +12,6 @@ import (
 	_ "crypto/sha512"
 	"fmt"
 	"math/big"
-	"strings"
 
 	"gitlab.com/yawning/secp256k1-voi/secec"
 	"gitlab.com/yawning/secp256k1-voi/secec/bitcoin"
@@ -255,6 +254,9 @@ func main() {
 	// (b) chosen R via key recovery: Q = r^-1 (sR - eG)
 	pts := mc.PointAlphabet(map[bool]int{false: 2, true: 5}[th], R.Seed, map[bool]int{false: 2, true: 6}[th])
 	svals := []*big.Int{one, ref.HalfN, new(big.Int).Add(ref.HalfN, one), nm1, big.NewInt(0x80)}
+	for l := uint(1); l < 4; l++ { // the low-s boundary moved by one unit of every limb: a limb-wise comparison that skips a limb
+		svals = append(svals, new(big.Int).Add(ref.HalfN, new(big.Int).Lsh(one, 64*l)), new(big.Int).Sub(ref.HalfN, new(big.Int).Lsh(one, 64*l)))
+	}
 	for pi, pv := range pts {
 		rp := pv.P
 		if rp.Inf {
@@ -293,13 +295,7 @@ func main() {
 	}
 	// (b') chosen u2 = r/s on the GLV rounding / limb-carry boundaries of the verifier's variable-base multiply:
 	// R = u1 G + u2 Q, r = x(R) mod n, s = r/u2, e = u1 s  (valid by construction, no private key needed)
-	for gi, gv := range mc.GLVScalars(false) {
-		if !(strings.HasPrefix(gv.Label, "rounding") || strings.HasPrefix(gv.Label, "quotient")) {
-			continue
-		}
-		if !th && !(strings.Contains(gv.Label, "m=ffffffffffffffff,") || strings.Contains(gv.Label, "m=0,") || gi%7 == 0) {
-			continue
-		}
+	for gi, gv := range mc.GLVVerifierSubset(th) {
 		u2 := gv.V
 		if u2.Sign() == 0 {
 			continue
